@@ -47,6 +47,39 @@ def attr_stores(func, attr, nested=False):
     return out
 
 
+def loop_escapes(loop, kinds=(ast.Break, ast.Continue, ast.Return)):
+    """break/continue statements that belong to `loop` itself (those of loops nested in it leave only the nested loop - among them the
+    one-pass `for _once in (None,)` wrapper an inlined helper is kept in) and every return inside it"""
+    out = []
+
+    def rec(stmts, depth):
+        for x in stmts:
+            if isinstance(x, (ast.Break, ast.Continue)):
+                if depth == 0 and isinstance(x, kinds):
+                    out.append(x)
+                continue
+            if isinstance(x, ast.Return):
+                if ast.Return in kinds:
+                    out.append(x)
+                continue
+            if isinstance(x, FUNC_TYPES + (ast.ClassDef,)):
+                continue
+            nested = isinstance(x, (ast.For, ast.AsyncFor, ast.While))
+            for field in ('body', 'orelse', 'finalbody'):
+                sub = getattr(x, field, None)
+                if isinstance(sub, list) and sub and isinstance(sub[0], ast.stmt):
+                    rec(sub, depth + (1 if nested and field == 'body' else 0))
+            if isinstance(x, ast.Try):
+                for h in x.handlers:
+                    rec(h.body, depth)
+            if hasattr(ast, 'Match') and isinstance(x, ast.Match):
+                for c_ in x.cases:
+                    rec(c_.body, depth)
+    rec(loop.body, 0)
+    rec(getattr(loop, 'orelse', []) or [], 1)
+    return out
+
+
 def is_call_to(node, name):
     return isinstance(node, ast.Call) and call_name(node) == name
 
@@ -966,6 +999,32 @@ def key_function(repo, func, key):
     if isinstance(key, ast.Call) and norm(key.func).split('.')[-1] == 'attrgetter' and len(key.args) == 1 and not key.keywords \
             and isinstance(key.args[0], ast.Constant) and isinstance(key.args[0].value, str):
         return ['_x.%s' % key.args[0].value], '_x'
+    if isinstance(key, ast.Call) and isinstance(key.func, ast.Name) and not key.keywords and not any(isinstance(a, ast.Starred) for a in key.args):
+        # a key-function factory: `key=make_key(a, b)` where make_key defines one function (or lambda) over its parameters and returns it
+        r = repo.resolve(key.func)
+        fac = repo.def_by_dotted(r) if r else None
+        if fac is not None and isinstance(fac, FUNC_TYPES):
+            eb = effective_body(fac)
+            ps = [a.arg for a in fac.args.args]
+            inner = None
+            if len(eb) == 1 and isinstance(eb[0], ast.Return) and isinstance(eb[0].value, ast.Lambda):
+                inner = eb[0].value
+            elif len(eb) == 2 and isinstance(eb[0], FUNC_TYPES) and isinstance(eb[1], ast.Return) and isinstance(eb[1].value, ast.Name) \
+                    and eb[1].value.id == eb[0].name:
+                inner = ast.Name(id=eb[0].name, ctx=ast.Load())
+            if inner is not None and len(ps) == len(key.args) and not fac.args.vararg and not fac.args.kwarg:
+                kf = key_function(repo, fac, inner)
+                if kf is not None:
+                    texts, arg = kf
+                    bind = {p_: a for p_, a in zip(ps, key.args)}
+                    if arg not in bind:
+                        class _S(ast.NodeTransformer):
+                            def visit_Name(self, node):
+                                if node.id in bind:
+                                    return ast.parse(norm(bind[node.id]), mode='eval').body
+                                return node
+                        return [norm(_S().visit(ast.parse(t, mode='eval').body)) for t in texts], arg
+        return None
     if isinstance(key, ast.Lambda):
         body, arg, holder = key.body, key.args.args[0].arg, None
     else:
